@@ -6,6 +6,7 @@ package pointstore
  * node Ids whereas points require a more careful treatment. */
 
 import (
+	"bytes"
 	"errors"
 	"fmt"
 
@@ -116,7 +117,10 @@ func GetPointByNodeId(bucket diskstore.ReadOnlyBucket, nodeId uint64, withData b
 	}
 	var data []byte
 	if withData {
-		data = bucket.Get(conversion.NodeKey(nodeId, 'd'))
+		// The returned slice is only valid during the storage transaction,
+		// callers such as search hand the data to their caller after the
+		// transaction has ended, so it needs a copy.
+		data = bytes.Clone(bucket.Get(conversion.NodeKey(nodeId, 'd')))
 	}
 	sp := ShardPoint{
 		Point: models.Point{
